@@ -122,6 +122,15 @@ def random_cfg(rng, alg=None, family="roomy", nobs=None, maxn=4):
             t += 2 + rng.randint(0, 2)
         hot = 10
         cold = 6 + rng.randint(0, 3)
+    elif family == "overlap":
+        # two observations whose ingest windows overlap and whose joint volume
+        # exceeds the hot buffer (each fits on its own)
+        for i, o in enumerate(obs):
+            o["rate"], o["dur"], o["est"] = 3, 2, min(i, 1) * rng.randint(0, 1)
+            o["demand"], o["ing"] = 1, 1
+        hot, cold = 10, 6 + rng.randint(0, 3)
+        arrays = max(arrays, len(obs))
+        max_ingest = max(max_ingest, min(nm, len(obs)))
     else:  # "tier": may cross the threshold
         hot = max(vols) + 1 + rng.randint(0, max(vols))
         cold = max(vols) + rng.randint(0, sum(vols))
